@@ -5,37 +5,51 @@ type Spec struct {
 	Pkg  string // package path below the module root
 	Func string // "Name" or "Receiver.Name"
 	Lean string // name of the Lean definition in namespace Elys.Gen.Arith
+	// Effects: the function makes bank transfers; its Lean definition also returns their trace [(from, to, amount)], oldest first
+	Effects bool
 }
 
 // order matters: a function is listed after the listed functions it calls
 var specs = []Spec{
-	{"x/amm/types", "solveConstantFunctionInvariant", "solveConstantFunctionInvariant"},
-	{"x/amm/types", "CalculateTokenARate", "calculateTokenARate"},
-	{"x/amm/types", "feeRatio", "feeRatio"},
-	{"x/amm/types", "calcPoolSharesOutGivenSingleAssetIn", "calcPoolSharesOutGivenSingleAssetIn"},
-	{"x/amm/types", "AbsDifferenceWithSign", "absDifferenceWithSign"},
-	{"x/amm/types", "ApplyDiscount", "applyDiscount"},
-	{"x/amm/types", "GetWeightBreakingFee", "getWeightBreakingFee"},
-	{"x/commitment/types", "VestingTokens.VestedSoFar", "vestedSoFar"},
-	{"x/perpetual/types", "CalcTakeAmount", "calcTakeAmount"},
-	{"x/perpetual/types", "MTP.CalcMTPTakeProfitBorrowFactor", "calcMTPTakeProfitBorrowFactor"},
-	{"x/perpetual/types", "MTP.GetBorrowInterestAmountAsCustodyAsset", "getBorrowInterestAmountAsCustodyAsset"},
-	{"x/stablestake/keeper", "Keeper.GetRedemptionRate", "getRedemptionRate"},
-	{"x/stablestake/keeper", "Keeper.InterestRateComputation", "interestRateComputation"},
+	{"x/amm/types", "solveConstantFunctionInvariant", "solveConstantFunctionInvariant", false},
+	{"x/amm/types", "CalculateTokenARate", "calculateTokenARate", false},
+	{"x/amm/types", "feeRatio", "feeRatio", false},
+	{"x/amm/types", "calcPoolSharesOutGivenSingleAssetIn", "calcPoolSharesOutGivenSingleAssetIn", false},
+	{"x/amm/types", "AbsDifferenceWithSign", "absDifferenceWithSign", false},
+	{"x/amm/types", "ApplyDiscount", "applyDiscount", false},
+	{"x/amm/types", "GetWeightBreakingFee", "getWeightBreakingFee", false},
+	{"x/commitment/types", "VestingTokens.VestedSoFar", "vestedSoFar", false},
+	{"x/perpetual/types", "CalcTakeAmount", "calcTakeAmount", false},
+	{"x/perpetual/types", "MTP.CalcMTPTakeProfitBorrowFactor", "calcMTPTakeProfitBorrowFactor", false},
+	{"x/perpetual/types", "MTP.GetBorrowInterestAmountAsCustodyAsset", "getBorrowInterestAmountAsCustodyAsset", false},
+	{"x/perpetual/types", "CalcMTPTakeProfitCustody", "calcMTPTakeProfitCustody", false},
+	{"x/perpetual/keeper", "Keeper.CalcReturnAmount", "calcReturnAmount", false},
+	{"x/perpetual/keeper", "Keeper.GetLiquidationPrice", "getLiquidationPrice", false},
+	{"x/perpetual/keeper", "Keeper.CalcMTPTakeProfitLiability", "calcMTPTakeProfitLiability", false},
+	{"x/perpetual/keeper", "Keeper.GetFundingPaymentRates", "getFundingPaymentRates", false},
+	{"x/perpetual/keeper", "Keeper.BorrowInterestRateComputation", "borrowInterestRateComputation", false},
+	{"x/perpetual/keeper", "Keeper.CalcMinCollateral", "calcMinCollateral", false},
+	{"x/stablestake/keeper", "Keeper.GetRedemptionRate", "getRedemptionRate", false},
+	{"x/masterchef/keeper", "Keeper.CollectGasFees", "collectGasFees", true},
+	{"x/masterchef/keeper", "Keeper.CollectPerpRevenue", "collectPerpRevenue", true},
+	{"x/stablestake/keeper", "Keeper.InterestRateComputation", "interestRateComputation", false},
 }
 
 // externs: callees that are loops; their hand-written Lean definitions are tied to the code by the differential harness only
 var externs = map[string]string{
-	elys + "/x/amm/types.Pow": "pow",
+	elys + "/x/amm/types.Pow":           "pow",
+	elys + "/x/amm/keeper.PortionCoins": "portionC", // a loop over the coins of a set; one denom here (Num/Checked.lean)
 }
 
 // errorsMap: Go error variables -> constructors of Elys.Amm.Err
 var errorsMap = map[string]string{
-	"ErrAmountTooLow":       ".amountTooLow",
-	"ErrTokenOutAmountZero": ".tokenOutZero",
-	"ErrInvalidMathApprox":  ".invalidMathApprox",
-	"ErrTooMuchSwapFee":     ".tooMuchSwapFee",
-	"ErrLimitMaxAmount":     ".limitMax",
-	"ErrTooManyTokensOut":   ".tooManySharesOut",
-	"ErrZeroCustodyAmount":  ".badArgs",
+	"ErrAmountTooLow":        ".amountTooLow",
+	"ErrTokenOutAmountZero":  ".tokenOutZero",
+	"ErrInvalidMathApprox":   ".invalidMathApprox",
+	"ErrTooMuchSwapFee":      ".tooMuchSwapFee",
+	"ErrLimitMaxAmount":      ".limitMax",
+	"ErrTooManyTokensOut":    ".tooManySharesOut",
+	"ErrZeroCustodyAmount":   ".badArgs",
+	"ErrInvalidLeverage":     ".badArgs",
+	"ErrBalanceNotAvailable": ".badArgs",
 }
